@@ -2646,6 +2646,7 @@ Proof.
       + rewrite X2. exact Hnone.
       + match goal with E : EvCli _ _ = EvCli _ _ |- _ => inversion E as [Er] end. apply zn_inj in Er. subst.
         rewrite X2. intros Hc. destruct (Nat.eq_dec t' t) as [->|Hne]; [congruence|]. eapply Hex; [exact Hne|left; exact Hc].
+      + match goal with E : EvCli _ _ = EvCli _ _ |- _ => inversion E end. eexists; reflexivity.
     - intros t'. unfold a'. vcase t' t.
       + rewrite att_at_app. cbn. unfold att_step. cbn. rewrite Nat.eqb_refl. cbn. unfold zn. now rewrite Nat2Z.id.
       + rewrite att_at_other by assumption. apply X2.
